@@ -16,6 +16,9 @@ import (
 	"verifharness/wire"
 )
 
+// IdleReadTimeout is the ReadTimeout of servers whose graph has IDLE edges.
+const IdleReadTimeout = 400 * time.Millisecond
+
 const (
 	MaxLine  = 200 // configured MaxLineLength of the servers under test
 	SmallMsg = "hi\r\n"
@@ -30,6 +33,7 @@ type Concrete struct {
 	Phases    [][]byte
 	Setup     func(be *rec.Backend)
 	EOF       bool
+	Idle      bool // send nothing: wait for the server's read timeout
 	ThenEOF   bool // close the write side after the phases
 	Handshake bool
 	Hostname  string
@@ -260,6 +264,8 @@ func Concretize(e *Edge, n int) Concrete {
 		}
 	case "EOF":
 		k.EOF = true
+	case "IDLE":
+		k.Idle = true
 	case "LONG":
 		line(strings.Repeat("A", MaxLine+100))
 	case "AFTER":
@@ -452,6 +458,16 @@ func (cv *Conv) Exec(e *Edge) (divs []evid.Div, fatal error) {
 		o, _ := cv.C.Output()
 		out = append(out, o...)
 		sent = append(sent, "<EOF>")
+	}
+	if k.Idle {
+		// nothing is sent: the server's ReadTimeout must end the connection
+		for dl := time.Now().Add(IdleReadTimeout*4 + 2*time.Second); !cv.C.SrvEnd.Closed() && time.Now().Before(dl); {
+			time.Sleep(2 * time.Millisecond)
+		}
+		cv.C.WaitIdle()
+		o, _ := cv.C.Output()
+		out = append(out, o...)
+		sent = append(sent, "<idle>")
 	}
 	for i, ph := range k.Phases {
 		o, _, err := cv.C.Step(ph)
@@ -801,14 +817,22 @@ func Tour(g *Graph, run *evid.Run, rng *rand.Rand, maxEdges int) (Stats, error) 
 func TourFiltered(g *Graph, run *evid.Run, rng *rand.Rand, maxEdges int, want func(*Edge) bool) (Stats, error) {
 	var st Stats
 	covered := make([]bool, len(g.Edges))
+	hasIdle := false
 	for _, e := range g.Edges {
+		if e.Lbl.Cmd.C == "IDLE" {
+			hasIdle = true
+		}
 		if want != nil && !want(e) {
 			covered[e.ID] = true
 		} else {
 			st.Edges++
 		}
 	}
-	srv := drv.Start(DrvCfg(g.Cfg))
+	dcfg := DrvCfg(g.Cfg)
+	if hasIdle {
+		dcfg.ReadTimeout = IdleReadTimeout
+	}
+	srv := drv.Start(dcfg)
 	defer srv.Stop()
 	var cv *Conv
 	cur := g.Init
